@@ -50,9 +50,10 @@ def levelOf (p : Nat) (s : IluSym) (i j : Nat) : Option Nat := ((levelTable p s)
 /-- the structure `t` stores exactly the off-diagonal positions with a level in the table (decidable comparison, run by
     the driver on every case) -/
 def patternMatches (p : Nat) (s t : IluSym) : Bool :=
+  let tbl := levelTable p s     -- computed once (`levelOf p s i j` is `(tbl.getD i #[]).getD j none`)
   (List.range s.n).all fun i => (List.range s.n).all fun j =>
     j == i ||
-      ((levelOf p s i j).isSome ==
+      (((tbl.getD i #[]).getD j none).isSome ==
         ((List.range' (t.rpL.getD i 0) (t.rpL.getD (i + 1) 0 - t.rpL.getD i 0)).any (fun k => t.ciL.getD k 0 == j)
           || (List.range' (t.rpU.getD i 0) (t.rpU.getD (i + 1) 0 - t.rpU.getD i 0)).any (fun k => t.ciU.getD k 0 == j)))
 
